@@ -8,6 +8,7 @@ from sim import gen, harness, history, world
 from sim.core import substream
 
 PROP = 'C18'
+TECHNIQUE = 'deterministic simulation with fault injection: forked universes (cache vs no cache) per command, enumerated torn cache entries, two concurrent clients on one cache directory'
 LEVEL = 'fault_enumeration'
 RULE = ('one case = a seeded history (snapshot, delete, clean, restore, listings) by 1..3 clients whose cache directories are separate, '
         'shared between keys, shared with a second repository, or made stale by other clients. Before every command the universe is '
